@@ -33,7 +33,7 @@ TAU = 3e-9
 
 
 def cases(tier, seed):
-    reps = 6 if tier == "quick" else 130
+    reps = 6 if tier == "quick" else 1500
     out = []
     for kind in gen.KINDS:
         for nv in range(1, 6):
